@@ -136,9 +136,14 @@ func runSolver(s Solver, file string, timeoutS int) (status string, out string, 
 	if out == "" && runErr != nil {
 		out = "exec: " + runErr.Error()
 	}
-	first := strings.TrimSpace(out)
-	if i := strings.IndexByte(first, '\n'); i >= 0 {
-		first = strings.TrimSpace(first[:i])
+	first := ""
+	for _, line := range strings.Split(out, "\n") {
+		line = strings.TrimSpace(line)
+		if line == "" || strings.HasPrefix(line, "WARNING") {
+			continue
+		}
+		first = line
+		break
 	}
 	switch first {
 	case "unsat", "sat", "unknown":
@@ -192,10 +197,26 @@ func (vc *VC) solveOne(o *Obl, enabled map[string]bool, opts SolveOpts, stats *S
 	o.Status, o.Backend, o.Ms = st, fastSolver.Name, int64(secs*1000)
 	if opts.Houdini {
 		if st != "unsat" {
-			st2, out2, secs2 := runSolver(solvers[1], file, 2)
-			record(solvers[1].Name, st2, out2, secs2)
-			if st2 == "unsat" {
-				o.Status, o.Backend, o.Ms = st2, solvers[1].Name, int64(secs2*1000)
+			// second chance before a candidate is dropped: z3 with model-based
+			// instantiation and cvc5, briefly, in parallel
+			type ans struct {
+				name, st, out string
+				secs          float64
+			}
+			ch := make(chan ans, 2)
+			for _, s := range []Solver{solvers[0], solvers[1]} {
+				s := s
+				go func() {
+					st2, out2, secs2 := runSolver(s, file, 2)
+					ch <- ans{s.Name, st2, out2, secs2}
+				}()
+			}
+			for i := 0; i < 2; i++ {
+				a := <-ch
+				record(a.name, a.st, a.out, a.secs)
+				if a.st == "unsat" {
+					o.Status, o.Backend, o.Ms = a.st, a.name, int64(a.secs*1000)
+				}
 			}
 		}
 		return
@@ -571,6 +592,7 @@ func solveAll(vcs []*VC, opts SolveOpts, stats *SolverStats) (cands, kept int) {
 	}
 	tStart := time.Now()
 	proved := map[*Obl]bool{} // proved in an earlier round with a core that is still intact
+	secondChance := map[*Obl]bool{} // already retried one by one with the stronger back ends
 	for round := 0; round < 60; round++ {
 		tR := time.Now()
 		need := func(o *Obl) bool {
@@ -605,10 +627,14 @@ func solveAll(vcs []*VC, opts SolveOpts, stats *SolverStats) (cands, kept int) {
 		for _, vc := range vcs {
 			for _, o := range vc.obls {
 				if isNeeded[o] {
-					if st, ok := res[o]; ok {
+					if st, ok := res[o]; ok && st == "unsat" {
 						o.Status, o.Backend = st, "z3-5.1.0-ematch(incremental)"
-						proved[o] = st == "unsat"
+						proved[o] = true
+					} else if ok && secondChance[o] {
+						o.Status, o.Backend = st, "z3-5.1.0-ematch(incremental)"
+						proved[o] = false
 					} else {
+						secondChance[o] = true
 						proved[o] = false
 						delete(allCores, o)
 						jobs = append(jobs, job{vc, o})
